@@ -32,9 +32,27 @@ Theorem C05_registry_prefix_refuted : exists h r out i j,
 Proof. exact registry_prefix_refuted. Qed.
 Print Assumptions C05_registry_prefix_refuted.
 
-(* (b) a job whose success marker exists is never launched by instances that have not yet decided
-   to start it - in particular by any later experiment; whatever else is in the directory,
-   whatever processes exist, any number of schedulers, crashes and kills included               *)
+(* MAIN STATEMENTS, (c) and the second half of (b).  N schedulers competing for one job, each of which may die between any two effects and be
+   started again, job processes that may be killed anywhere: never two processes in the body *)
+Theorem C05_body_mutex : forall st, reachable st ->
+  body_active st <= 1 /\ (forall p q, procs st p = PBody -> procs st q = PBody -> p = q).
+Proof. exact body_mutex. Qed.
+Print Assumptions C05_body_mutex.
+
+(* ... and once the marker exists the body never begins again - WHATEVER the schedulers are doing (no hypothesis on
+   their program counters): a process may still be launched by a scheduler that lost the race, its body is skipped *)
+Theorem C05_no_rerun_after_success : forall st tr st', reachable st -> done st = true -> steps st tr st' ->
+  (forall p, ~ In (LBegin p) tr) /\ body_runs st' = body_runs st.
+Proof. exact no_rerun_after_success. Qed.
+Print Assumptions C05_no_rerun_after_success.
+
+(* (b) "never launched again by any later experiment".  HYPOTHESIS, not conclusion: every scheduler instance is
+   at a point where it has not yet decided to start the job (snolaunch: not submitted, or still before the
+   second marker test of aio_submit) - in particular every experiment that starts after the marker exists
+   (the _later form: every instance over).  This assumes the race away: a scheduler that made both marker tests
+   BEFORE the marker appeared does launch a process afterwards (C05_launch_after_marker below); what protects
+   the body then is the runner-side test under the lock, i.e. C05_no_rerun_after_success above.  Arbitrary
+   prior contents of the directory, arbitrary processes, crashes and kills included.                       *)
 Theorem C05_done_never_launched : forall st tr st', done st = true ->
   (forall s, snolaunch (scheds st s) = true) -> steps st tr st' ->
   launches st' = launches st /\ (forall s, ~ In (LSpawn s) tr).
@@ -46,18 +64,29 @@ Theorem C05_done_never_launched_later : forall st tr st', done st = true ->
 Proof. exact done_never_launched_later. Qed.
 Print Assumptions C05_done_never_launched_later.
 
-(* (c) N schedulers competing for one job, each of which may die between any two effects and be
-   started again, job processes that may be killed anywhere: never two processes in the body *)
-Theorem C05_body_mutex : forall st, reachable st ->
-  body_active st <= 1 /\ (forall p q, procs st p = PBody -> procs st q = PBody -> p = q).
-Proof. exact body_mutex. Qed.
-Print Assumptions C05_body_mutex.
+(* what does happen (first shown by the audit): marker present, scheduler 1 waiting for the job lock after both
+   of its marker tests: it launches a second process (launches 1 -> 2); that process finds the marker under the
+   lock and skips the body (body_runs stays 1), and scheduler 1 reports DONE *)
+Theorem C05_launch_after_marker : exists st st',
+  reachable st /\ done st = true /\ scheds st 1 = SLock /\
+  steps st ([LSLock 1; LTrunc 1; LWrite 1; LSpawn 1; LCreatePid 1; LWritePid 1; LSUnlock 1] ++ tr_proc_skip 1 ++ [LWaitEnd 1]) st' /\
+  launches st = 1 /\ launches st' = 2 /\ body_runs st = 1 /\ body_runs st' = 1 /\ scheds st' 1 = SFinal VDone.
+Proof. exact launch_after_marker. Qed.
+Print Assumptions C05_launch_after_marker.
 
-(* ... and once the marker exists the body never begins again *)
-Theorem C05_no_rerun_after_success : forall st tr st', reachable st -> done st = true -> steps st tr st' ->
-  (forall p, ~ In (LBegin p) tr) /\ body_runs st' = body_runs st.
-Proof. exact no_rerun_after_success. Qed.
-Print Assumptions C05_no_rerun_after_success.
+(* DONE in a scheduler means the marker exists - N schedulers, crashes, kills; needs the repaired script writer
+   (temporary file + rename): no job process ever executes an empty script                                  *)
+Theorem C05_done_truthful : forall st, reachable st -> forall s, scheds st s = SFinal VDone -> done st = true.
+Proof. exact done_truthful. Qed.
+Print Assumptions C05_done_truthful.
+
+(* record of the defect of the pinned commit (script rewritten in place): scheduler 1 empties <name>.py while the
+   process started by scheduler 0 has not read it yet; it exits 0; scheduler 0 reports DONE, no marker, no body *)
+Theorem C05_truncated_script_refuted : exists st,
+  run_labels_prefix tr_truncated fresh = Some st /\
+  scheds st 0 = SFinal VDone /\ done st = false /\ body_runs st = 0 /\ procs st 0 = PExit XNop.
+Proof. exact truncated_script_refuted. Qed.
+Print Assumptions C05_truncated_script_refuted.
 
 (* the same for every job of an experiment with dependencies *)
 Theorem C05_body_mutex_all_jobs : forall deps g, greachable deps g -> forall j, body_active (jd g j) <= 1.
